@@ -1,0 +1,16 @@
+//go:build verif
+// +build verif
+
+// Package verifapi re-exports internal packages for the external verification harness.
+// It is compiled only with the "verif" build tag.
+package verifapi
+
+import (
+	"gopkg.in/src-d/hercules.v10/internal/toposort"
+)
+
+// Graph is internal/toposort.Graph.
+type Graph = toposort.Graph
+
+// NewGraph is internal/toposort.NewGraph.
+var NewGraph = toposort.NewGraph
